@@ -236,10 +236,14 @@ def main():
         sys.exit(2)
 
     # 1. extraction from the current working tree
-    try:
-        report = ex.extract(gen, rep_path)
-    except ex.ExtractError as e:
-        undecided("extract: %s" % e)
+    havoc = []
+
+    def do_extract():
+        try:
+            return ex.extract(gen, rep_path, havoc=tuple(havoc))
+        except ex.ExtractError as e:
+            undecided("extract: %s" % e)
+    report = do_extract()
     lib = ensure_shim(build_root)
     gen_src = open(gen).read()
     cheats = scan_cheats(gen_src)
@@ -290,6 +294,8 @@ def main():
     seeds = [None] if tier == "quick" else [None, (seed % 1000) + 1]
     verus_mods = modules if tier == "quick" else report["modules"] + ["model", "stdspec"]
     per_fn = {}
+    frontend_failed = None
+    unsupported_in_contracted = []
     failures = []       # dicts: fn, message, class, rendered
     unstable = []
     total_smt_ms = 0
@@ -301,9 +307,44 @@ def main():
         if res is None:
             undecided("verus produced no result", err)
         vr = res.get("verification-results", {})
+        tries = 0
+        while (vr.get("encountered-vir-error") or (vr.get("encountered-error") and not res.get("times-ms", {}).get("smt"))) and tries < 6:
+            # A construct Verus cannot ingest. If it sits in a function that carries NO contract (typically new code),
+            # hide that body without assuming anything about it and try again: callers then see an arbitrary effect, and
+            # a property that depended on it fails at the caller's obligation. A contracted function is never hidden.
+            tries += 1
+            idx0 = FnIndex(gen)
+            contracted = set(report["under_contract"]) | {a["fn"] for a in report["assumed"]}
+            added = False
+            blocked = []
+            for d in diags:
+                if d.get("level") != "error" or not any(u in d.get("message", "").lower() for u in ("not supported", "not yet support", "does not support", "unsupported")):
+                    continue
+                for ln in diag_lines(d):
+                    e = idx0.at_line(ln)
+                    if e is None:
+                        continue
+                    cand = "%s::%s::%s" % (e[2], e[4], e[3]) if e[4] else "%s::%s" % (e[2], e[3])
+                    key = (e[2], e[3], e[5])
+                    if cand in contracted or "%s::%s" % (e[2], e[3]) in contracted:
+                        blocked.append(cand)
+                    elif key not in havoc:
+                        havoc.append(key)
+                        added = True
+                    break
+            if not added:
+                msgs = [d.get("rendered", d.get("message", "")) for d in diags if d.get("level") == "error"]
+                break
+            report = do_extract()
+            cmd, res, diags, err, wall = run_verus(gen, lib, verus_mods, rlimit, threads, sd,
+                                                   timeout=spec.get("timeout_s", 1500) * (3 if tier == "thorough" else 1))
+            if res is None:
+                undecided("verus produced no result", err)
+            vr = res.get("verification-results", {})
         if vr.get("encountered-vir-error") or (vr.get("encountered-error") and not res.get("times-ms", {}).get("smt")):
             msgs = [d.get("rendered", d.get("message", "")) for d in diags if d.get("level") == "error"]
-            undecided("verus front-end error (unsupported construct or type error after an edit?)", "\n".join(msgs))
+            frontend_failed = "\n".join(msgs)
+            break
         idx = FnIndex(gen)
         this_run = {}
         for mt in res["times-ms"]["smt"].get("smt-run-module-times", []):
@@ -342,6 +383,31 @@ def main():
             run_fail.append({"fn": fq, "message": msg, "class": cls, "rendered": d.get("rendered", "")})
         runs.append({"seed": sd, "wall_s": round(wall, 2), "results": this_run, "failures": run_fail,
                      "verified": vr.get("verified"), "errors": vr.get("errors")})
+    if frontend_failed is not None:
+        # Verus cannot ingest the current text of a function that is under contract (or ghost code no longer type-checks
+        # against a changed representation): the deductive check is undecided. A bounded native stand-in for the property,
+        # where one exists, may still find a concrete failing input, which is then a replayed violation.
+        standin = None
+        try:
+            import backends
+            standin = backends.bounded_standin(pid, tier, seed, bdir)
+        except ImportError:
+            pass
+        rdir = os.path.join(VERIF, "evidence", "replay")
+        os.makedirs(rdir, exist_ok=True)
+        if standin and standin.get("violation"):
+            v = standin["violation"]
+            rp = os.path.join(rdir, "%s_bounded_standin.json" % pid)
+            with open(rp, "w") as fh:
+                json.dump({"property": pid, "obligation": "bounded-standin:" + standin.get("name", "?"), "backend": "native-bounded",
+                           "verifier_output": [frontend_failed[-3000:]], "input": v.get("input"), "real": v.get("real"),
+                           "expected": v.get("expected"), "reproduced": True,
+                           "note": "Verus could not ingest the edited code; violation found and replayed by the bounded stand-in"}, fh, indent=1)
+            print("VIOLATION property=%s replay=%s obligation=bounded-standin (verus undecided: front-end error)" % (pid, rp))
+            sys.exit(1)
+        undecided("verus front-end error (unsupported construct in a contracted function, or ghost code no longer type-checks after a "
+                  "representation change)%s" % ("; bounded stand-in found no violation: %s" % standin.get("summary") if standin else "; no bounded stand-in for this property"),
+                  frontend_failed)
     # merge runs: an obligation failing in one seed and passing in another is unstable
     first = runs[0]
     for fq, ent in first["results"].items():
